@@ -209,14 +209,8 @@ func (a *zzC02Agglayer) GetCertificateHeader(ctx context.Context, id common.Hash
 	if x.status != agglayertypes.Settled && x.status != agglayertypes.InError {
 		switch zzverif.U8("verdict") % 3 { // the Agglayer moves (or not) before it answers
 		case 0:
-			switch zzverif.U8("openStatus") % 3 {
-			case 0:
-				x.status = agglayertypes.Pending
-			case 1:
-				x.status = agglayertypes.Proven
-			default:
-				x.status = agglayertypes.Candidate
-			}
+			// still undecided: Pending (0), Proven (1) or Candidate (2)
+			x.status = agglayertypes.CertificateStatus(zzverif.U8("openStatus") % 3)
 		case 1:
 			x.status = agglayertypes.Settled
 		default:
@@ -239,7 +233,17 @@ type zzC02Feeder struct {
 
 func (f *zzC02Feeder) feed() {
 	f.n++
-	if zzverif.Bool("nextIsEpoch") {
+	// PREFIX fixes the first events of the schedule (base-3 digits, first event lowest: 1 epoch, 2 status tick, 0 either), so that
+	// one deep exploration can be split into several obligations; beyond the prefix every event is a symbolic choice
+	pre := zzverif.Param("PREFIX")
+	for i := uint64(1); i < f.n; i++ {
+		pre /= 3
+	}
+	epoch := pre%3 == 1
+	if pre%3 == 0 {
+		epoch = zzverif.Bool("nextIsEpoch")
+	}
+	if epoch {
 		f.epoch <- types.EpochEvent{Epoch: f.n}
 	} else {
 		zzTickCh <- time.Time{}
